@@ -114,6 +114,22 @@ def gen_spec(seed, index, tier):
             st["arg"] = {"kind": "bad", "bad": ops.choice(["zero", "negative", "nan"]),
                          "f": ops.uniform(0.5, 2.0)}
         steps[0] = st
+    if cls not in ("ConvexSpheropolyhedron",) and ops.chance(0.25):
+        # a caller that keeps ONE position array for the whole run, updates it in place and
+        # assigns it again (pos += dx; shape.centroid = pos)
+        pname = "centroid" if "centroid" in settable_of(cls) else "center"
+        pts = [s for s in steps if s["op"] == "set" and s.get("prop") in history.POINT_PROPS
+               and s["arg"].get("kind") == "point"]
+        while len(pts) < 2:
+            st = {"op": "set", "prop": pname, "inner": False, "pyseed": ops.u32(),
+                  "npseed": ops.u32(),
+                  "arg": {"kind": "point", "d": [ops.uniform(-2, 2) for _ in range(3)],
+                          "rel": "anchor", "as": "array"}}
+            steps.insert(ops.randint(0, len(steps)), st)
+            pts.append(st)
+        for s in pts:
+            s["arg"]["as"] = "array"
+        spec["cfg"] = {"reuse_point_array": True}
     spec["steps"] = steps
     return spec
 
@@ -244,6 +260,9 @@ def execute(spec, world):
     cls = type(obj).__name__
     tracked = {"faces_are_convex": base.get("faces_are_convex", True)}
     mutated = 0
+    reuse = {} if (spec.get("cfg") or {}).get("reuse_point_array") else None
+    if reuse is not None:
+        C["runs_with_reused_position_array"] += 1
     for si, st in enumerate(spec["steps"]):
         C["steps"] += 1
         name = op_name(st)
@@ -264,7 +283,7 @@ def execute(spec, world):
                     c_pre = np.array(tgt.centroid, dtype=float, copy=True)
             except Exception:  # noqa: BLE001
                 c_pre = None
-        r = history.apply(obj, st, world)
+        r = history.apply(obj, st, world, reuse=reuse)
         attempts = list(world.solver.attempts)
         nfail = sum(1 for a in attempts if a["outcome"] in ("injected", "natural"))
         skip_solver = bool(_solver_skip(world, r.get("pre_attempts", ())))
